@@ -58,6 +58,11 @@ def check_single_pass(ctx: Ctx, rule: str, builder_name: str) -> bool:
             why = f"the first thing printed for an assignment is {av.show(first)[:100] if first else None}"
     else:
         why = f"the equations are {av.show(v)[:220]}"
+        # the equations are collected by a helper object (its methods print and append): not a shape this rule reads
+        ctor = [c_ for c_ in av.find_all(v, "call") if c_[1].split(".")[-1][:1] == "_" and c_[1].split(".")[-1].lstrip("_")[:1].isupper() or ctx.sm.classes.get((f.rel, c_[1].split(".")[-1])) is not None]
+        if ctor or av.find_all(v, "ev") or av.find_all(v, "obj"):
+            ctx.undecided(rule, key, f"{builder_name} collects its equations through a helper object ({av.show(v)[:80]}); the pass structure is not judged", f.where())
+            return False
     ctx.check(ok, rule, key, "one pass over ode.sorted_assignments(remove_unused=remove_unused); each assignment printed first", f"{builder_name} does not emit its equations in one pass over the dependency-sorted assignments with every assignment printed as it is met ({why}): an assignment that refers to a state derivative (or any later definition) is printed before that definition", f.where())
     return ok
 
